@@ -22,6 +22,12 @@ func init() {
 
 func c20() []*Ob {
 	return []*Ob{
+		{Prop: "C20", ID: "C20.10", Engine: "PAIR(two sites)", Floor: 1,
+			Desc:  "a pooled fields filter never carries the previous request's field list: acquireDocFieldsFilter sets the filter on every path, or releaseDocFieldsFilter clears it before the object goes back to the pool",
+			Check: func(c *Ctx) { pooledFilterIsReset(c) }},
+		{Prop: "C20", ID: "C20.11", Engine: "PAIR(two sites)", Floor: 1,
+			Desc:  "a fields filter that is handed out can decode: acquireDocFieldsFilter creates the decoder whenever the decoder itself is missing, or nothing ever sets it back to nil (a filter without decoder fails open: the document is returned with all its fields)",
+			Check: func(c *Ctx) { pooledDecoderExists(c) }},
 		{Prop: "C20", ID: "C20.8", Engine: "ALIAS(view of a recycled buffer)", Floor: 2,
 			Desc:  "a name handed on is a value of its own: a byte-slice field that its owner recycles (re-sliced to [:0] and refilled, or passed to a call whose result is stored back into it) never leaves as an unsafe string view — the result of util.ByteToStringUnsafe on such a field is not returned, stored, sent or appended anywhere (it may be parsed or compared on the spot); the fields-pipe parser joining the parts of a hyphenated field name in a per-lexer scratch buffer and returning a view of it makes `fields x-forwarded-for, user-agent` a list of two corrupted names, and the projection keeps or drops the wrong fields",
 			Check: func(c *Ctx) { noViewOfRecycledBuffer(c) }},
